@@ -93,9 +93,16 @@ StepEnd ==
   /\ UNCHANGED <<live, cfg, doff, cap>>
   /\ l' = l + 1
 
-StepSkip == /\ Rec[l].ev \notin {"reset", "call", "ret", "end", "stuck"} /\ l' = l + 1 /\ UNCHANGED <<live, cfg, doff, cap>>
+\* the process died (abort / signal) while the arena was executing: it followed bytes that are not its own
+StepDied ==
+  /\ Rec[l].ev = "died"
+  /\ Viol("C02", "ProcessDied", 0, FALSE)
+  /\ UNCHANGED <<live, cfg, doff, cap>>
+  /\ l' = l + 1
 
-Next == l <= Len(Rec) /\ (StepReset \/ StepEv \/ StepEnd \/ StepSkip)
+StepSkip == /\ Rec[l].ev \notin {"reset", "call", "ret", "end", "stuck", "died"} /\ l' = l + 1 /\ UNCHANGED <<live, cfg, doff, cap>>
+
+Next == l <= Len(Rec) /\ (StepReset \/ StepEv \/ StepEnd \/ StepDied \/ StepSkip)
 Spec == Init /\ [][Next]_vars
 
 Consumed == TLCGet("stats").diameter - 1 = Len(Rec)
